@@ -492,12 +492,28 @@ def do_check(pid, tier, seed):
                             o.write(json.dumps({"ev": "fs", "slot": 1, "s": [ord(ch) for ch in x], "consumed": True}) + "\n")
 
                 rp = os.path.join(wd, "tlcreplay-%s.replay.ndjson" % m["cfg"])
-                with open(fp) as f, open(rp, "w") as o:
+                def chosen_mismatches():
+                    """at most 3000 mismatching behaviours: those on which the implementation PANICKED first (they may come
+                    late in TLC's breadth-first order, behind thousands of plain divergences), then the rest in order"""
+                    npan = 0
+                    with open(fp) as f:
+                        for ln in f:
+                            if ln.rstrip().endswith('"got":"panic"}'):
+                                npan += 1
+                                if npan <= 1500:
+                                    yield ln
+                    rest = 3000 - min(npan, 1500)
+                    with open(fp) as f:
+                        for ln in f:
+                            if rest <= 0:
+                                break
+                            if not ln.rstrip().endswith('"got":"panic"}'):
+                                rest -= 1
+                                yield ln
+                with open(rp, "w") as o:
                     k = 0
                     conts = 0
-                    for idx, ln in enumerate(f):
-                        if idx >= 3000:
-                            break
+                    for idx, ln in enumerate(chosen_mismatches()):
                         b = json.loads(ln)
                         k += 1
                         write_ep(o, k, b, [])
